@@ -17,7 +17,7 @@
 (* (action Evaluate taken twice on the same spec object) lives in MC_C15 / Trace_C15.     *)
 EXTENDS GlomData
 
-CONSTANT RMutant  \* "none" | "init_once" | "first_as_init" | "merge_into_first" | "lazy_extra_level" | "count_bad_init"
+CONSTANT RMutant  \* "none" | "init_once" | "first_as_init" | "merge_into_first" | "lazy_extra_level" | "count_bad_init" | "sub_in_try"
                   \* wrong mechanisms the laws must reject (vacuity check)
 
 \* ================================================================================
@@ -288,10 +288,21 @@ HChainN(h, elems, n) ==
   ELSE LET r == HChain(h, elems, 1, <<>>) IN IF r.ok THEN HChainN(h, r.v, n - 1) ELSE r
 
 \* glom(root, spec): the subspec, then Fold.glomit / flatten() / merge()
-MTarget(h, root, sp) == IF sp.sub = "k" THEN Lookup(h[root.a].items, VStr("k")) ELSE root
-MEval(h, root, sp, persist) ==
-  LET t == MTarget(h, root, sp) IN
-  IF sp.form = "flatten" /\ sp.levels = 0 THEN MOut(h, TRUE, root, "", 0, VNone, <<>>)    \* return target
+\* glom(root, subspec) for the three subspecs  T,  'k',  ('k', [T])  - the last one a list spec
+\* over the fetched value: a new list of its items, or UnregisteredTarget when it cannot be iterated
+MSub(h, root, sp) ==
+  IF sp.sub = "T" THEN [ok |-> TRUE, h |-> h, v |-> root, exc |-> ""]
+  ELSE LET inner == Lookup(h[root.a].items, VStr("k")) IN
+       IF sp.sub = "k" THEN [ok |-> TRUE, h |-> h, v |-> inner, exc |-> ""]
+       ELSE IF GlomIterable(h, inner)
+       THEN [ok |-> TRUE, h |-> Append(h, Cell("list", HIter(h, inner))), v |-> VRef(NewAddr(h)), exc |-> ""]
+       ELSE [ok |-> FALSE, h |-> h, v |-> VNone, exc |-> "UnregisteredTarget"]
+MEval(h0, root, sp, persist) ==
+  LET s == MSub(h0, root, sp)  h == s.h  t == s.v IN
+  IF sp.form = "flatten" /\ sp.levels = 0 THEN MOut(h0, TRUE, root, "", 0, VNone, <<>>)   \* return target
+  \* the subspec is evaluated outside the try: its own failure propagates as it is
+  \* (mutant "sub_in_try": inside, an UnregisteredTarget of the subspec becomes a FoldError)
+  ELSE IF ~s.ok THEN MOut(h0, FALSE, VNone, IF RMutant = "sub_in_try" THEN "FoldError" ELSE s.exc, 0, VNone, <<>>)
   ELSE IF ~GlomIterable(h, t) THEN MOut(h, FALSE, VNone, "FoldError", 0, VNone, <<>>)      \* target_iter fails first
   ELSE
     LET elems == HIter(h, t) IN
@@ -314,9 +325,17 @@ MEval(h, root, sp, persist) ==
 \* ================================================================================
 \* what is compared with the library: [ok, v (structural), exc]; inits = number of init() calls
 Shown(h, o) == [ok |-> o.ok, v |-> IF o.ok THEN Deep(h, o.v) ELSE VNone, exc |-> o.exc]
+\* glom(t, subspec) in the reference: its failure is the outcome, whatever the reduction
+RefSub(sp, w) ==
+  IF sp.sub = "T" THEN SOk(w)
+  ELSE LET inner == Lookup(w.items, VStr("k")) IN
+       IF sp.sub = "k" THEN SOk(inner)
+       ELSE IF SGlomIterable(inner) THEN SOk(DList(SIter(inner))) ELSE SErr("UnregisteredTarget")
 RefShown(h0, root, sp) ==
-  LET r == RefOutcome(sp, Deep(h0, MTarget(h0, root, sp))) IN [ok |-> r.ok, v |-> r.v, exc |-> r.exc]
-MinInits(h0, root, sp) == RefInits(sp, Deep(h0, MTarget(h0, root, sp)))
+  LET st == RefSub(sp, Deep(h0, root))
+      r  == IF st.ok THEN RefOutcome(sp, st.v) ELSE st
+  IN [ok |-> r.ok, v |-> r.v, exc |-> r.exc]
+MinInits(h0, root, sp) == LET st == RefSub(sp, Deep(h0, root)) IN IF st.ok THEN RefInits(sp, st.v) ELSE 0
 
 \* L1  the result equals the plain-Python reduction (value, or class of the exception)
 LawValue(h0, h, root, sp, o) == Shown(h, o) = RefShown(h0, root, sp)
@@ -326,9 +345,11 @@ LawInits(h0, root, sp, o) == o.inits >= MinInits(h0, root, sp)
 LawFrame(h0, h) == \A a \in 1..Len(h0) : h[a] = h0[a]
 \* L3  no input cell is ever the object that is updated in place (no mutable alias of the accumulator)
 LawNoInputAccumulator(h0, o) == \A i \in 1..Len(o.muts) : o.muts[i] > Len(h0)
-\* L4  a non-iterable target raises FoldError, and only that does
+\* L4  a non-iterable target (what the subspec returned) raises FoldError, and only that does
 LawFoldError(h0, root, sp, o) ==
-  (o.exc = "FoldError") <=> (~(sp.form = "flatten" /\ sp.levels = 0) /\ ~GlomIterable(h0, MTarget(h0, root, sp)))
+  (o.exc = "FoldError") <=>
+    LET st == RefSub(sp, Deep(h0, root)) IN
+    ~(sp.form = "flatten" /\ sp.levels = 0) /\ st.ok /\ ~SGlomIterable(st.v)
 \* L5  lazy = eager: consuming a lazy Flatten gives what the eager Flatten(init=list) returns
 LawLazyIsEager(h0, h, root, sp, o) ==
   sp.lazy => LET e == MEval(h0, root, [sp EXCEPT !.lazy = FALSE, !.init = "list"], VNone)
